@@ -188,6 +188,18 @@ def check_query(case, m, ref, ctx, classes):
             classes.append("excluded:KF-C11-AM-EDGE")
             must = must - am
             missing = missing - am
+    if ref.latlon and missing and not math.isinf(r):
+        # a great-circle arc bulges poleward of both its end points: an edge whose end points both lie outside the latitude
+        # range of the disc can still come within the radius, but no bounding-box test on its end points can find it
+        dlat = math.degrees(r / 6371000.0)
+        bulge = {e for e in missing if max(ref.loc[e[0]][0], ref.loc[e[1]][0]) < q[0] - dlat or
+                 min(ref.loc[e[0]][0], ref.loc[e[1]][0]) > q[0] + dlat}
+        if bulge and ctx.known("KF-C11-ARC-BULGE", "a long east-west edge whose end points both lie just outside the latitude range of the "
+                                                   "search disc is pre-filtered by the bounding box of its end points, although its "
+                                                   "great-circle arc bulges poleward into the disc"):
+            classes.append("excluded:KF-C11-ARC-BULGE")
+            must = must - bulge
+            missing = missing - bulge
     if me is None:
         if missing:
             e = sorted(missing, key=repr)[0]
